@@ -77,6 +77,7 @@ type judgeOpts struct {
 // properties pin down.  It returns the outcome and the model result; skipped
 // reports an out-of-domain program.
 func judge(c *fw.Ctx, prog []*model.N, jo judgeOpts) (o h.Outcome, res *model.Result, skipped bool) {
+	prog = parenAll(prog)
 	src := model.Render(prog)
 	return judgeSrc(c, src, prog, jo)
 }
@@ -142,4 +143,14 @@ func judgeSrc(c *fw.Ctx, src string, prog []*model.N, jo judgeOpts) (o h.Outcome
 		}
 	}
 	return o, res, false
+}
+
+// parenAll inserts the grouping nodes the ladder requires so that the
+// rendered text parses back to exactly the given trees.
+func parenAll(prog []*model.N) []*model.N {
+	out := make([]*model.N, len(prog))
+	for i, s := range prog {
+		out[i] = model.Parenthesize(s, true)
+	}
+	return out
 }
